@@ -125,6 +125,8 @@ def solo_call(a5mod, seam, call, want_trace=False, cap=3_000_000):
             counter[0] += 1
             if counter[0] > cap:
                 raise SimAbort()
+    global _history_mode
+    _history_mode = True                 # one thread only: a blocking wait can never be satisfied
     args = [canon.dec(a) for a in call['a']]
     seam.handler = h
     try:
@@ -138,8 +140,15 @@ def solo_call(a5mod, seam, call, want_trace=False, cap=3_000_000):
 
 
 def _solo_outcome(a5mod, call):
+    global _history_mode
+    _history_mode = True                 # quiescent node: one thread only
     args = [canon.dec(a) for a in call['a']]
-    outcome, _ = apply_call(a5mod, call['f'], args)
+    try:
+        outcome, _ = apply_call(a5mod, call['f'], args)
+    except SimAbort:
+        outcome = ['abort', 'deadlock']  # blocks forever on a primitive left behind by the threads
+    finally:
+        _history_mode = False
     return outcome
 
 
@@ -491,6 +500,58 @@ def make_plan(spec, rng, nthreads, est_len):
 # --------------------------------------------------------------------------
 
 _current_sched = None
+_history_mode = False       # set in a C17 history node: one thread only, so a blocking wait can never be satisfied
+
+
+class SimDeadlock(SimAbort):
+    """A blocking acquire/wait that can never be satisfied (single-threaded node)."""
+
+
+class _Waiter:
+    __slots__ = ('notified', 'timed_out', 'real')
+
+    def __init__(self):
+        self.notified = False
+        self.timed_out = False
+        self.real = None
+
+
+def _in_sim():
+    s = _current_sched
+    return s if (s is not None and s.active and s.cur is not None and s.is_sim_thread()) else None
+
+
+def _coop_wait(w, timeout=None):
+    """Block the calling thread until w is notified (or, for a timed wait, until
+    simulated time is allowed to jump because nothing else can run)."""
+    s = _in_sim()
+    if s is None:
+        if _history_mode:
+            if timeout is not None:
+                w.timed_out = True
+                return
+            raise SimDeadlock()
+        w.real = _real_allocate_lock()
+        w.real.acquire()
+        if w.notified:
+            return
+        if not w.real.acquire(True, -1 if timeout is None else timeout):
+            w.timed_out = True
+        return
+    while not w.notified and not w.timed_out:
+        s.block_on(w, timed=timeout is not None)
+
+
+def _coop_wake(w):
+    w.notified = True
+    if w.real is not None:
+        try:
+            w.real.release()
+        except RuntimeError:
+            pass
+    s = _current_sched
+    if s is not None and s.active:
+        s.unblock(w)
 
 
 class CoopLock:
@@ -506,8 +567,12 @@ class CoopLock:
             return True
         if not blocking:
             return False
-        s = _current_sched
-        if s is None or not s.active or s.cur is None or not s.is_sim_thread():
+        s = _in_sim()
+        if s is None:
+            if _history_mode:
+                if timeout is not None and timeout >= 0:
+                    return False
+                raise SimDeadlock()
             return self._l.acquire(True, timeout)
         while True:
             s.block_on(self)
@@ -521,6 +586,16 @@ class CoopLock:
             s.unblock(self)
 
     def locked(self):
+        return self._l.locked()
+
+    def _release_save(self):
+        self.release()
+        return None
+
+    def _acquire_restore(self, state):
+        self.acquire()
+
+    def _is_owned(self):
         return self._l.locked()
 
     __enter__ = acquire
@@ -554,26 +629,173 @@ class CoopRLock:
             self._owner = None
             self._l.release()
 
+    def _release_save(self):
+        state = (self._count, self._owner)
+        self._count = 0
+        self._owner = None
+        self._l.release()
+        return state
+
+    def _acquire_restore(self, state):
+        self._l.acquire()
+        self._count, self._owner = state
+
+    def _is_owned(self):
+        return self._owner == _thread.get_ident()
+
     __enter__ = acquire
 
     def __exit__(self, *a):
         self.release()
 
 
-_orig_lock, _orig_rlock = threading.Lock, threading.RLock
+class CoopCondition:
+    def __init__(self, lock=None):
+        self._lock = lock if lock is not None else CoopRLock()
+        self.acquire = self._lock.acquire
+        self.release = self._lock.release
+        self._waiters = []
+
+    def __enter__(self):
+        return self._lock.__enter__()
+
+    def __exit__(self, *a):
+        return self._lock.__exit__(*a)
+
+    def wait(self, timeout=None):
+        w = _Waiter()
+        self._waiters.append(w)
+        state = self._lock._release_save() if hasattr(self._lock, '_release_save') else self._lock.release()
+        try:
+            _coop_wait(w, timeout)
+        finally:
+            if hasattr(self._lock, '_acquire_restore'):
+                self._lock._acquire_restore(state)
+            else:
+                self._lock.acquire()
+            if not w.notified and w in self._waiters:
+                self._waiters.remove(w)
+        return w.notified
+
+    def wait_for(self, predicate, timeout=None):
+        result = predicate()
+        while not result:
+            if not self.wait(timeout) and timeout is not None:
+                return predicate()
+            result = predicate()
+        return result
+
+    def notify(self, n=1):
+        for w in self._waiters[:n]:
+            self._waiters.remove(w)
+            _coop_wake(w)
+
+    def notify_all(self):
+        self.notify(len(self._waiters))
+
+    notifyAll = notify_all
+
+
+class CoopSemaphore:
+    def __init__(self, value=1):
+        if value < 0:
+            raise ValueError('semaphore initial value must be >= 0')
+        self._value = value
+        self._waiters = []
+
+    def acquire(self, blocking=True, timeout=None):
+        while self._value == 0:
+            if not blocking:
+                return False
+            w = _Waiter()
+            self._waiters.append(w)
+            try:
+                _coop_wait(w, timeout)
+            finally:
+                if w in self._waiters:
+                    self._waiters.remove(w)
+            if w.timed_out and self._value == 0:
+                return False
+        self._value -= 1
+        return True
+
+    __enter__ = acquire
+
+    def release(self, n=1):
+        self._value += n
+        for w in self._waiters[:n]:
+            self._waiters.remove(w)
+            _coop_wake(w)
+
+    def __exit__(self, *a):
+        self.release()
+
+
+class CoopBoundedSemaphore(CoopSemaphore):
+    def __init__(self, value=1):
+        CoopSemaphore.__init__(self, value)
+        self._initial = value
+
+    def release(self, n=1):
+        if self._value + n > self._initial:
+            raise ValueError('Semaphore released too many times')
+        CoopSemaphore.release(self, n)
+
+
+class CoopEvent:
+    def __init__(self):
+        self._flag = False
+        self._waiters = []
+
+    def is_set(self):
+        return self._flag
+
+    isSet = is_set
+
+    def set(self):
+        self._flag = True
+        ws, self._waiters = self._waiters, []
+        for w in ws:
+            _coop_wake(w)
+
+    def clear(self):
+        self._flag = False
+
+    def wait(self, timeout=None):
+        if self._flag:
+            return True
+        w = _Waiter()
+        self._waiters.append(w)
+        try:
+            _coop_wait(w, timeout)
+        finally:
+            if w in self._waiters:
+                self._waiters.remove(w)
+        return self._flag
+
+
+_PATCHED = ('Lock', 'RLock', 'Condition', 'Semaphore', 'BoundedSemaphore', 'Event')
+_orig = {k: getattr(threading, k) for k in _PATCHED}
 
 
 def patch_threading():
-    """Install the cooperative lock seam: while a5 is being imported (module
-    level locks) and inside node children (locks created at call time).  The
-    pool machinery of template and worker processes keeps the real classes."""
+    """Install the cooperative synchronisation seam: while a5 is being imported
+    (module-level primitives) and inside node children (primitives created at
+    call time).  The pool machinery of template and worker processes keeps the
+    real classes.  Not wrapped: Barrier, Timer, Thread (a library that spawns
+    its own threads runs them outside the scheduler's control and is reported
+    as a harness error, never as a pass)."""
     threading.Lock = CoopLock
     threading.RLock = CoopRLock
+    threading.Condition = CoopCondition
+    threading.Semaphore = CoopSemaphore
+    threading.BoundedSemaphore = CoopBoundedSemaphore
+    threading.Event = CoopEvent
 
 
 def unpatch_threading():
-    threading.Lock = _orig_lock
-    threading.RLock = _orig_rlock
+    for k, v in _orig.items():
+        setattr(threading, k, v)
 
 
 # --------------------------------------------------------------------------
@@ -588,6 +810,8 @@ class Sched:
         self.kill = None
         self.killed = None
         self._pos = None
+        self.timed = [False] * len(thread_calls)
+        self.timeouts_fired = 0
         self.seen_lines = set() if plan.wants_novel else None
         self.a5 = a5mod
         self.calls = thread_calls
@@ -692,13 +916,26 @@ class Sched:
         self.seg_n += 1
 
     # -- cooperative lock support ------------------------------------------
-    def block_on(self, lock):
+    def block_on(self, lock, timed=False):
         t = self.cur
         self.state[t] = 'blocked'
         self.blocked_on[t] = lock
+        self.timed[t] = timed
         r = self.runnable()
         if not r:
-            self._abort('deadlock')
+            # nothing can run: simulated time jumps to the earliest pending timeout, if any
+            tw = [i for i in range(self.n) if self.state[i] == 'blocked' and self.timed[i]]
+            if not tw:
+                self._abort('deadlock')
+            w = tw[0]
+            self.state[w] = 'ready'
+            obj, self.blocked_on[w] = self.blocked_on[w], None
+            if hasattr(obj, 'timed_out'):
+                obj.timed_out = True
+            self.timeouts_fired += 1
+            if w == t:
+                return
+            r = [w]
         target = self.plan.handoff(r)
         self._transfer(t, target, 'lock')
         self.locks[t].acquire()
@@ -725,27 +962,41 @@ class Sched:
                 self.h.update(('r%d:%s' % (tid, canon.key(outcome))).encode())
         except SimAbort:
             return
+        except BaseException as e:               # harness bug inside a simulated thread
+            self._abort('harness: %s: %s' % (type(e).__name__, e))
         # finished: hand the baton on
         self.state[tid] = 'done'
         self._close_segment(tid)
         r = self.runnable()
         if not r:
             if any(s == 'blocked' for s in self.state):
-                self._abort('deadlock')
-            self.active = False
-            self.main_lock.release()
-            return
+                tw = [i for i in range(self.n) if self.state[i] == 'blocked' and self.timed[i]]
+                if not tw:
+                    self._abort('deadlock')
+                w = tw[0]
+                self.state[w] = 'ready'
+                obj, self.blocked_on[w] = self.blocked_on[w], None
+                if hasattr(obj, 'timed_out'):
+                    obj.timed_out = True
+                self.timeouts_fired += 1
+                r = [w]
+            else:
+                self.active = False
+                self.done_locks[tid].release()
+                self.main_lock.release()
+                return
         target = self.plan.handoff(r)
         self._transfer(tid, target, None)
+        self.done_locks[tid].release()
 
     def run(self):
         global _current_sched
         _current_sched = self
-        threads = []
+        # raw threads (not threading.Thread, whose internals use the primitives the seam replaces)
+        self.done_locks = [_real_allocate_lock() for _ in range(self.n)]
         for i in range(self.n):
-            th = threading.Thread(target=self._thread_main, args=(i,), name='sim-%d' % i, daemon=True)
-            threads.append(th)
-            th.start()
+            self.done_locks[i].acquire()
+            _thread.start_new_thread(self._thread_main, (i,))
         # wait until every thread has registered its ident (they then park)
         import time
         while any(x is None for x in self.idents):
@@ -760,8 +1011,8 @@ class Sched:
         self.active = False
         _current_sched = None
         if self.aborted is None:
-            for th in threads:
-                th.join()
+            for l in self.done_locks:
+                l.acquire()
         # digest over the normalised schedule (zero-length ping-pongs are
         # no-ops and do not count), every call's result, and per-thread steps
         self.h.update(repr(self.segments).encode())
@@ -910,6 +1161,8 @@ def run_history_node(a5mod, seam, spec):
     """Body of a C17 node.  spec['ops'] is a list of ops; see c17.py.
     Returns one record per executed op: pre-call canonical args, outcome,
     post-call canonical args, steps, whether a fault landed."""
+    global _history_mode
+    _history_mode = True
     recs = []
     owned = {}          # op index -> (args objects, result object)
     h = hashlib.blake2b(digest_size=16)
@@ -985,6 +1238,9 @@ def run_history_node(a5mod, seam, spec):
             seam.handler = handler
             try:
                 outcome, val = apply_call(a5mod, fname, args)
+            except SimDeadlock:
+                # a blocking acquire/wait in a single-threaded process: this call can never return
+                outcome, val = ['abort', 'deadlock'], None
             except SimAbort:
                 # runaway call: stop the history here (state after an abandoned call is not judged)
                 outcome, val = ['abort', 'cap'], None
